@@ -95,3 +95,134 @@ def only_reached_through(model, qual, allowed):
             return False
         work.extend(cs)
     return True
+
+
+# ---- module-level / class-level tables that may change at run time ----------------------------------------------
+READ_METHODS = frozenset(['get', 'items', 'keys', 'values', 'copy', 'index', 'count', '__contains__', '__getitem__',
+                          'union', 'intersection', 'difference', 'issubset', 'issuperset', 'isdisjoint'])
+WRITE_METHODS = frozenset(['append', 'extend', 'insert', 'remove', 'pop', 'popitem', 'clear', 'update', 'setdefault',
+                           'add', 'discard', 'sort', 'reverse', '__setitem__', '__delitem__'])
+PURE_CONSUMERS = frozenset(['len', 'dict', 'list', 'tuple', 'set', 'frozenset', 'sorted', 'iter', 'enumerate', 'zip', 'any',
+                            'all', 'max', 'min', 'sum', 'isinstance', 'reversed', 'map', 'filter', 'str', 'repr', 'bool', 'next'])
+
+
+def _is_mutable_display(node):
+    if isinstance(node, (ast.Dict, ast.List, ast.Set, ast.DictComp, ast.ListComp, ast.SetComp)):
+        return True
+    if isinstance(node, ast.Call) and isinstance(node.func, ast.Name) and node.func.id in ('dict', 'list', 'set', 'bytearray'):
+        return True
+    if isinstance(node, ast.Call) and isinstance(node.func, ast.Attribute) and node.func.attr == 'fromkeys':
+        return True
+    return False
+
+
+def _parents(fn):
+    par = {}
+    for n in ast.walk(fn):
+        for c in ast.iter_child_nodes(n):
+            par[c] = n
+    return par
+
+
+def _classify_use(model, fn, par, occ, depth):
+    """'read' | ('write', lineno, what) | ('escape', lineno, what) for one occurrence of a table (or of an alias of it)"""
+    P = par.get(occ)
+    line = getattr(occ, 'lineno', 0)
+    if P is None:
+        return 'read'
+    if isinstance(P, ast.Subscript) and P.value is occ:
+        if isinstance(P.ctx, ast.Load):
+            return 'read'
+        return ('write', line, 'item assignment / deletion')
+    if isinstance(P, ast.Attribute) and P.value is occ:
+        G = par.get(P)
+        if isinstance(G, ast.Call) and G.func is P:
+            if P.attr in READ_METHODS:
+                return 'read'
+            if P.attr in WRITE_METHODS:
+                return ('write', line, '.%s()' % P.attr)
+        return ('escape', line, '.%s' % P.attr)
+    if isinstance(P, ast.Compare):
+        return 'read'
+    if isinstance(P, (ast.For, ast.comprehension)) and P.iter is occ:
+        return 'read'
+    if isinstance(P, ast.Starred):
+        return 'read'
+    if isinstance(P, ast.keyword) and P.arg is None:
+        return 'read'
+    if isinstance(P, ast.AugAssign) and P.target is occ:
+        return ('write', line, 'augmented assignment')
+    if isinstance(P, ast.Call) and (occ in P.args or any(k.value is occ for k in P.keywords)):
+        f = P.func
+        if isinstance(f, ast.Name) and f.id in PURE_CONSUMERS:
+            return 'read'
+        if isinstance(f, ast.Attribute) and f.attr in ('join', 'format', 'get', 'startswith', 'endswith', 'isdisjoint', 'issubset',
+                                                        'issuperset', 'union', 'intersection', 'difference', 'debug', 'info', 'warning', 'error'):
+            return 'read'
+        # a call into the package: follow the parameter one level
+        name = f.attr if isinstance(f, ast.Attribute) else (f.id if isinstance(f, ast.Name) else None)
+        cands = [(c, g, m) for (c, g, m) in functions(model) if g.name == name]
+        if depth > 0 and len(cands) == 1 and occ in P.args:
+            c, g, m = cands[0]
+            params = [a.arg for a in g.args.args]
+            if c is not None and params and params[0] in ('self', 'cls') and isinstance(f, ast.Attribute):
+                params = params[1:]
+            idx = P.args.index(occ)
+            if idx < len(params):
+                return _classify_name(model, g, params[idx], depth - 1)
+        return ('escape', line, 'passed to %s()' % (name or '?'))
+    if isinstance(P, ast.Assign) and P.value is occ and len(P.targets) == 1 and isinstance(P.targets[0], ast.Name) and depth > 0:
+        return _classify_name(model, fn, P.targets[0].id, depth - 1, skip=P.targets[0])
+    if isinstance(P, (ast.BoolOp, ast.IfExp)):
+        return _classify_use(model, fn, par, P, depth)
+    if isinstance(P, (ast.If, ast.While, ast.Assert, ast.UnaryOp)):
+        return 'read'
+    return ('escape', line, type(P).__name__)
+
+
+def _classify_name(model, fn, name, depth, skip=None):
+    par = _parents(fn)
+    worst = 'read'
+    for n in ast.walk(fn):
+        if isinstance(n, ast.Name) and n.id == name and n is not skip and isinstance(n.ctx, ast.Load):
+            r = _classify_use(model, fn, par, n, depth)
+            if r != 'read':
+                if r[0] == 'write':
+                    return r
+                worst = r
+    return worst
+
+
+def mutable_tables(model):
+    """{(module|class, NAME): (kind, qualname, lineno, what)} for module-level and class-level containers that some
+    function of the package may change at run time (kind 'write'), or lets escape to code the census cannot follow
+    ('escape').  The abstract interpreter must not read such a table as a constant: its content depends on the history."""
+    cached = getattr(model, '_mutable_tables', None)
+    if cached is not None:
+        return cached
+    tables = {}
+    for (mod, name), node in model.consts.items():
+        if _is_mutable_display(node):
+            tables[name] = (mod, name)
+    out = {}
+    if tables:
+        for cname, fn, mod in functions(model):
+            q = '%s.%s' % (cname, fn.name) if cname else fn.name
+            par = _parents(fn)
+            for n in ast.walk(fn):
+                nm = None
+                if isinstance(n, ast.Name) and n.id in tables and isinstance(n.ctx, ast.Load):
+                    nm = n.id
+                elif isinstance(n, ast.Attribute) and n.attr in tables and isinstance(n.ctx, ast.Load) and n.attr.isupper():
+                    nm = n.attr
+                if nm is None:
+                    continue
+                r = _classify_use(model, fn, par, n, 2)
+                if r == 'read':
+                    continue
+                key = tables[nm]
+                old = out.get(key)
+                if old is None or (old[0] == 'escape' and r[0] == 'write'):
+                    out[key] = (r[0], q, r[1], r[2])
+    model._mutable_tables = out
+    return out
